@@ -299,6 +299,16 @@ def check(case: dict[str, Any]) -> list[tuple[str, str]]:
             continue
         ia, a, b = own[0], trace[own[0]][1], t1
         hit = False
+        # between a request and its final reply "no other request is transmitted on that transport": that holds for the caller
+        # itself as well - it may retransmit its request, nothing else
+        for i in own[1:]:
+            if trace[i][3] != trace[ia][3]:
+                out.append(("C05/interleaved/other-request-by-the-caller-inside-its-exchange",
+                            f"{name} transmitted {trace[i][3].hex()} at t={trace[i][1]:.3f} while its request {trace[ia][3].hex()} ({op} #{j}) was still open [{a:.3f}, {b:.3f}]; {_tr(trace)}"))
+                hit = True
+                break
+        if hit:
+            break
         for i, (k, t, who, data) in itrace:
             if not (ia < i < i1 and t < b - 1e-9) or who == name:
                 continue
